@@ -790,7 +790,8 @@ func checkNestingCounter(c *Ctx, p *core.Prog, lexFns []*ssa.Function, match *ss
 				continue
 			}
 			nLoops++
-			inLoop := func(b *ssa.BasicBlock) bool { return h.Dominates(b) && reaches(b, h) }
+			loopSet := naturalLoop(h)
+			inLoop := func(b *ssa.BasicBlock) bool { return loopSet[b] }
 			holds := func(b *ssa.BasicBlock, to *ssa.BasicBlock, v ssa.Value, truth bool) bool {
 				fs := append([]core.Fact{}, core.FactsAt(b)...)
 				if ifi, ok := b.Instrs[len(b.Instrs)-1].(*ssa.If); ok && to != nil && len(b.Succs) == 2 && b.Succs[0] != b.Succs[1] {
